@@ -50,9 +50,11 @@ func suiteAlloc(args []string) {
 	fs := flag.NewFlagSet("alloc", flag.ExitOnError)
 	seed := fs.Int64("seed", 1, "")
 	n := fs.Int("n", 40, "")
-	fs.String("dir", "", "")
+	dir := fs.String("dir", "work/alloc", "")
 	fs.Parse(args)
 	r := rand.New(rand.NewSource(*seed))
+	cw := newCaseWriter(*dir)
+	defer cw.close()
 	rep := &Report{Suite: "alloc", Seed: *seed, Distribution: map[string]int{}}
 	rep.Rule = fmt.Sprintf("one evaluation = one Decode call measured with runtime.MemStats.TotalAlloc; inputs: valid messages and every item header of them with its length replaced by 2^16, 2^20, 2^24, 2^31, 2^32-1 (plus truncations of those); bound: %d*len + %d; non-trivial = a planted length", allocPerByte, allocConst)
 	debug.SetGCPercent(-1)
@@ -63,6 +65,10 @@ func suiteAlloc(args []string) {
 	check := func(tn string, data []byte, what string) {
 		a, obs := measureDecode(tn, data)
 		rep.Evaluations++
+		// the same input through the reader-object decoder of Readers.v, whose allocation ledger theorem C05_alloc_linear bounds
+		if len(data) <= 4096 {
+			cw.add("alloc", "cdec "+tn+" 0 - 0 eof "+hexBytes(data), fmt.Sprintf("%s alloc=%d", obs, a))
+		}
 		bound := uint64(allocPerByte*len(data) + allocConst)
 		ratio := float64(a) / float64(bound)
 		if ratio > worst {
